@@ -209,7 +209,7 @@ pub fn boundary_ints() -> Vec<i64> {
 pub fn boundary_floats() -> Vec<f64> {
     vec![
         0.0, -0.0, 0.5, -0.5, 1.0, -1.0, 1.5, 2.0, 31.5, 1e-9, 1e300, -1e300,
-        f64::MIN_POSITIVE, f64::MAX, f64::MIN, f64::INFINITY, f64::NEG_INFINITY, f64::NAN,
+        f64::MIN_POSITIVE, f64::MAX, f64::MIN, f64::INFINITY, f64::NEG_INFINITY, f64::NAN, f64::from_bits(0xFFF8_0000_0000_0000),
         9007199254740992.0, 9007199254740993.0, 9.223372036854775807e18, -9.223372036854775808e18,
         0.1, 0.2, 0.30000000000000004, 1e15, 4294967296.0,
     ]
